@@ -334,7 +334,11 @@ func (l *log) GetByTime(start time.Time) (message.Message, error) {
 
 		switch msg, err := rdr.GetByTime(ts, tctx); err {
 		case nil:
-			return msg, nil
+			if i == 0 || msg.Offset != rdr.GetOffset() {
+				return msg, nil
+			}
+			// matched the first message of this segment, an older
+			// segment might end with messages at the same time
 		case index.ErrTimeIndexEmpty:
 			// empty head segment (e.g. the newest messages got deleted), try the rest
 			if i == 0 {
